@@ -65,7 +65,8 @@ package dtls
 //@ func Conn.processHandshakePacket
 //@ watch Conn.nextLocalSequenceNumber CipherSuite.Encrypt
 //@ requires state12: has12(c)
-//@ requires args: pkt != nil && pkt.Record != nil && dtlsHandshake != nil
+//@ requires args: pkt != nil && pkt.Record != nil && dtlsHandshake != nil && !isNil(dtlsHandshake.Message)
+//@ requires mtu: c.maximumTransmissionUnit > 0 && c.maximumTransmissionUnit <= 1<<30
 //@ requires callbacks: c.paddingLengthGenerator != nil
 //@ requires suite: pkt.ShouldEncrypt ==> S12(c).Common.CipherSuite != nil
 //@ loop rangeindex: state-kept: has12(c) && pkt.Record != nil && pkt.Record == old(pkt.Record) && pkt.ShouldEncrypt == old(pkt.ShouldEncrypt) && common == S12(c).Common && (pkt.ShouldEncrypt ==> S12(c).Common.CipherSuite != nil)
